@@ -342,6 +342,9 @@ func (n *namer) genGroupBody(g *Grp, c *Cmd, nest int) {
 		g.NoFlag = append(g.NoFlag, &NoFlagField{Field: fmt.Sprintf("NF%d", id), Long: fmt.Sprintf("nf%03d", id), Short: 0})
 	}
 	k := r.Range(cfg.OptsMin, cfg.OptsMax)
+	if g.NoOwn {
+		k = 0
+	}
 	for i := 0; i < k; i++ {
 		if o := n.genOpt(g, c); o != nil {
 			g.Opts = append(g.Opts, o)
@@ -356,11 +359,17 @@ func (n *namer) genGroupBody(g *Grp, c *Cmd, nest int) {
 				// an untagged struct field: its options are part of the enclosing group
 				sg.Inline, sg.Desc = true, ""
 				sg.Ptr = r.Chance(cfg.PPtrGroup, 100)
+				if sg.Ptr && r.Bool() {
+					// the program leaves the pointer nil: the library allocates the struct while it reads the
+					// declaration (and must keep it if anything was declared inside - also if that is only a nested group)
+					sg.NilPtr = true
+					sg.NoOwn = nest+1 < cfg.NestMax && r.Bool()
+				}
 				d.Grps = append(d.Grps, sg)
 				g.Subs = append(g.Subs, sg)
 				n.genGroupBody(sg, c, nest+1)
 				if sg.Ptr && len(allOptsOf(sg)) == 0 {
-					sg.Ptr = false
+					sg.Ptr, sg.NilPtr = false, false
 				}
 				continue
 			}
